@@ -59,7 +59,7 @@ func passthroughBreaks(engine, kind string, stream bool) map[string]any {
 		return bh
 	})
 	b.SetScript(func(_ int, sn *stack.Seen) stack.Behaviour { return anth.OKAnswer("B", sn) })
-	s, err := stack.Start(stack.Opts{Engine: engine, Balancer: "priority", EPs: []stack.EP{{Name: "A", Type: "vllm", Priority: 300, Backend: a}, {Name: "B", Type: "sglang", Priority: 100, Backend: b}},
+	s, err := stack.Start(stack.Opts{Vary: stack.VaryFor("c02.xroute", engine, kind, stream), Engine: engine, Balancer: "priority", EPs: []stack.EP{{Name: "A", Type: "vllm", Priority: 300, Backend: a}, {Name: "B", Type: "sglang", Priority: 100, Backend: b}},
 		Mutate: func(cfg *config.Config) {
 			cfg.Translators.Anthropic.Enabled = true
 			cfg.Translators.Anthropic.PassthroughEnabled = true
@@ -222,6 +222,11 @@ func main() {
 					scs = append(scs, sc)
 				}
 			}
+		}
+	}
+	if vlib.ReplayPath() == "" {
+		for i, sc := range scs {
+			sc.Vary = stack.VaryFor("c02", i)
 		}
 	}
 	var mu sync.Mutex
